@@ -49,7 +49,7 @@ SLICES = {
 }
 TIERS = {'quick': ['q1', 'q2', 'q3', 'q4', 'q5'], 'thorough': ['q1', 'q2', 'q3', 'q4', 'q5', 'q6', 'q7', 't1', 't3']}
 # quick tier: the slices that exercise the property's own phases (thorough runs all of them for every property)
-QUICK = {'C07': ['q2', 'q5'], 'C08': ['q1', 'q2'], 'C09': ['q5', 'q6'],
+QUICK = {'C07': ['q2', 'q5'], 'C08': ['q1', 'q2', 'q6'], 'C09': ['q5', 'q6'],
          'C10': ['q3', 'q5'], 'C19': ['q4', 'q7']}
 
 
